@@ -7,6 +7,7 @@ import ShexerModel.Model.MinIri
 import ShexerModel.Model.MergeE
 import ShexerModel.Model.Nt
 import ShexerModel.Model.Ttl
+import ShexerModel.Model.History
 import ShexerModel.Spec.Counts
 import ShexerModel.Spec.ShExSem
 open Shexer
@@ -156,6 +157,23 @@ def runCase (st : DState) (what id : String) : List String :=
       | .error .runtimeError => ["EXC\tRuntimeError"]
       | .error .attributeError => ["EXC\tAttributeError"]
       | .error .indexError => ["EXC\tIndexError"]
+    | "history" =>
+      -- `NT` lines carry the operations: `shex <fmt> <num> <den>` | `profile`; every call is answered from the
+      -- History model (memoised stages), not from the pipeline directly
+      let ops : List History.Op := st.rawLines.toList.filterMap fun l =>
+        match l.splitOn " " with
+        | ["shex", f, n, d] => some (.shex (if f == "shacl" then .shacl else .shexc) (n.toNat?.getD 0) (d.toNat?.getD 1))
+        | ["profile"] => some .profile
+        | _ => none
+      let rec go (s : History.Shaper) (k : Nat) : List History.Op → List String
+        | [] => []
+        | op :: rest =>
+          let r := History.step s op
+          ("CALL\t" ++ toString k) ::
+            (match r.2 with
+             | .shapes _ l => Emit.render l
+             | .profile p => p.map fun e => "PROFILE\t" ++ e.1) ++ go r.1 (k + 1) rest
+      go (History.new st.cfg g) 0 ops
     | "merge" =>
       -- unit level: `MergeableConstraints.merge_group` on the statements of the last shape, failure modes included
       match st.shapes.back? with
